@@ -116,7 +116,7 @@ def run(chk, prog):
         chk.analysed_body(lctx.body)
         S, info = skip_edges(lctx, fname)
         vsk = 0
-        for bb, t in lctx.calls(*VERIFY):
+        for bb, t in lctx.calls(*VERIFY, wrappers=True):
             og = lctx.origins.of_operand(t.args[1])
             from .c03 import stored_origin
             if og and all(stored_origin(lctx, o, fname) for o in og):
